@@ -77,11 +77,13 @@ class FileAnonymizer:
         if anon_pwd:
             self.compiled_regexes = generate_default_sensitive_item_regexes()
             self.pwd_lookup = {}
+        # Reserved words of this anonymizer only: the shared default set is not modified
+        self.reserved_words = default_reserved_words
         if reserved_words is not None:
-            default_reserved_words.update(reserved_words)
+            self.reserved_words = default_reserved_words | set(reserved_words)
         if sensitive_words is not None:
             self.anonymizer_sensitive_word = SensitiveWordAnonymizer(
-                sensitive_words, self.salt
+                sensitive_words, self.salt, self.reserved_words
             )
         if anon_ip or undo_ip_anon:
             self.anonymizer4 = IpAnonymizer(
@@ -117,7 +119,11 @@ class FileAnonymizer:
             output_line = line
             if self.compiled_regexes is not None and self.pwd_lookup is not None:
                 output_line = replace_matching_item(
-                    self.compiled_regexes, output_line, self.pwd_lookup, self.salt
+                    self.compiled_regexes,
+                    output_line,
+                    self.pwd_lookup,
+                    self.salt,
+                    self.reserved_words,
                 )
 
             if self.anonymizer6 is not None:
